@@ -259,4 +259,167 @@ Proof.
         -- apply res_src; assumption.
   - destruct (Hfresh' _ _ eq_refl) as [e [He Hi]]. exists g, e. auto 10.
 Qed.
+
+(* ---- every connection, after the pass ---- *)
+Inductive conn1_is (x : inst) (c : name * sx) (e : sx) : Prop :=
+| c1_ref q g : as_ref m (snd c) = Some q -> In q (mentioned m) -> In q keys -> gid m keys q = Some g -> In g keys ->
+    conn key (nxt m) g q -> res m keys table q = Ok e -> res_is q g e -> conn1_is x c e
+| c1_nc site id a nm w : as_ref m (snd c) = None -> as_nc m (snd c) = Some site -> e = XSig id (a_width a) ->
+    In (id, a, nm) table -> a_kind a = ANc (i_name x) (fst c) -> port_width d x (fst c) = Ok w ->
+    a_width a = (if single x then w else w * i_n x) -> conn1_is x c e
+| c1_same : as_ref m (snd c) = None -> as_nc m (snd c) = None -> e = snd c -> conn1_is x c e.
+
+Lemma pr_rewrite_conn x c : In x (m_insts m) -> In c (i_conns x) ->
+  exists e, rewrite_conn m keys table x c = Ok (fst c, e) /\ conn1_is x c e.
+Proof.
+  intros Hx Hc. unfold rewrite_conn. destruct (as_ref m (snd c)) as [q|] eqn:Er.
+  - assert (In q (mentioned m)) as Hq by (apply pr_mentioned; eauto).
+    destruct (pr_res q Hq) as [g [e [Hqk [Hg [Hgk [Cg [Hres Hi]]]]]]]. rewrite Hres. cbn [bind]. exists e. split; [reflexivity|].
+    eapply c1_ref; eassumption.
+  - destruct (as_nc m (snd c)) as [site|] eqn:En.
+    + destruct plan_facts as [Hgood [_ [_ [_ Hcov]]]].
+      destruct (Hcov x (fst c) site (pr_seed_nc x c site Hx Hc En)) as [a [Ha Hk]]. destruct (tbl_of_alloc a Ha) as [id [nm Ht]].
+      destruct (find_some_exists (fun e : N * alloc * name => match a_kind (snd (fst e)) with
+                    | ANc i' p' => String.eqb (i_name x) i' && String.eqb (fst c) p' | AGroup _ _ => false end) table (id, a, nm) Ht)
+        as [[[id2 a2] nm2] Hfind]; [cbn [fst snd]; rewrite Hk, !String.eqb_refl; reflexivity|].
+      pose proof (find_some _ _ Hfind) as [Ht2 Hk2]. cbn [fst snd] in Hk2. destruct (a_kind a2) as [|i2 p2] eqn:Eka2; [discriminate|].
+      apply andb_prop in Hk2. destruct Hk2 as [E1 E2]. apply String.eqb_eq in E1. apply String.eqb_eq in E2. subst i2 p2.
+      unfold find_nc. rewrite Hfind. cbn [ofopt bind fst snd]. exists (XSig id2 (a_width a2)). split; [reflexivity|].
+      destruct (tbl_In _ _ _ Ht2) as [Ha2 _]. rewrite Forall_forall in Hgood. pose proof (Hgood a2 Ha2) as G2. unfold alloc_good in G2. rewrite Eka2 in G2.
+      destruct G2 as [x' [w [cx [site' [Hf' [Hw [_ [_ Hwd]]]]]]]]. rewrite (pr_find x Hx) in Hf'. inversion Hf'; subst x'.
+      eapply c1_nc; try eassumption. reflexivity.
+    + exists (snd c). split; [destruct c; reflexivity|]. apply c1_same; auto.
+Qed.
+
+(* a port that is connected to nothing but referred to owns the implicit signal of its group *)
+Lemma pr_added x p : In x (m_insts m) -> single x = true -> assoc p (i_conns x) = None -> In (i_name x, p) (mentioned m) ->
+  exists id a nm g w, In (id, a, nm) table /\ a_kind a = AGroup g (i_name x, p) /\ port_width d x p = Ok w /\ a_width a = w /\
+    gid m keys (i_name x, p) = Some g /\ In (p, XSig id (a_width a)) (added_conns table x).
+Proof.
+  intros Hx Hs Ha Hq. set (q := (i_name x, p)) in *.
+  destruct (pr_res q Hq) as [g [e [Hqk [Hg [Hgk [Cg [Hres Hi]]]]]]].
+  assert (pconn m q = None) as Hp by (unfold pconn, q; cbn [fst snd]; rewrite (pr_find x Hx); exact Ha).
+  assert (nxt m q = q) as Hfix by (unfold nxt, next; rewrite Hp; reflexivity).
+  pose proof (attr_fixed d km m keys Hwm Hfrag Hkeys g q Hgk Hqk Hfix Cg) as Hattr.
+  destruct Hi as [Hsrc _ _|id a nm o He Ht Hk Hok Co Hw]; [rewrite Hattr, Hp in Hsrc; discriminate|].
+  (* the owner of the group's signal is q itself *)
+  destruct (tbl_In _ _ _ Ht) as [Hal _]. destruct plan_facts as [Hgood _]. rewrite Forall_forall in Hgood.
+  pose proof (Hgood a Hal) as G. unfold alloc_good in G. rewrite Hk in G. destruct G as [_ [_ [namer [Hgr _]]]].
+  unfold group_res in Hgr. rewrite Hattr, Hp in Hgr. inversion Hgr; subst o namer.
+  assert (exists w, port_width d x p = Ok w /\ a_width a = w) as [w [Hpw' Haw]].
+  { unfold key_width in Hw. unfold q in Hw. cbn [fst snd] in Hw. rewrite (pr_find x Hx) in Hw. cbn [ofopt bind] in Hw. eauto. }
+  exists id, a, nm, g, w. repeat (split; [assumption|]). unfold added_conns. apply in_flat_map. exists (id, a, nm). split; [exact Ht|].
+  cbn [fst snd]. rewrite Hk. unfold q. cbn [fst snd]. rewrite String.eqb_refl, Hs, Ha. left. reflexivity.
+Qed.
+
+Lemma refs_to_pos_inv i p : 0 < refs_to m i p -> exists x c, In x (m_insts m) /\ In c (i_conns x) /\ as_ref m (snd c) = Some (i, p).
+Proof.
+  unfold refs_to. intros H.
+  destruct (filter _ _) as [|lw l] eqn:Ef; [unfold zlen in H; cbn in H; lia|].
+  assert (In lw (lw :: l)) as Hin by (left; reflexivity). rewrite <- Ef in Hin. apply filter_In in Hin. destruct Hin as [Hin Hl].
+  apply in_concat in Hin. destruct Hin as [l1 [Hl1 Hin]]. apply in_map_iff in Hl1. destruct Hl1 as [x [<- Hx]].
+  apply in_concat in Hin. destruct Hin as [l2 [Hl2 Hin]]. apply in_map_iff in Hl2. destruct Hl2 as [c [<- Hc]].
+  destruct (assocN (fst lw) (m_leaves m)) as [[s|i' p'|s]|] eqn:El; try discriminate.
+  apply andb_prop in Hl. destruct Hl as [E1 E2]. apply String.eqb_eq in E1. apply String.eqb_eq in E2. subst i' p'.
+  exists x, c. split; [exact Hx|]. split; [exact Hc|].
+  pose proof (Hfrag x c Hx Hc) as Hfr. unfold conn_frag in Hfr. destruct (snd c) as [id w|pp ix|ps] eqn:Ec.
+  - cbn [sx_leaves] in Hin. destruct Hin as [<-|[]]. cbn [fst] in El. unfold as_ref, leaf_at. rewrite El. reflexivity.
+  - exfalso. rewrite forallb_forall in Hfr. specialize (Hfr lw Hin). unfold leaf_kind in Hfr. rewrite El in Hfr. discriminate.
+  - exfalso. rewrite forallb_forall in Hfr. specialize (Hfr lw Hin). unfold leaf_kind in Hfr. rewrite El in Hfr. discriminate.
+Qed.
+
+(* ---- the module after the pass ---- *)
+Variable insts1 : list inst.
+Hypothesis Hins : Forall2 (fun x x1 => rewrite_inst m keys table x = Ok x1) (m_insts m) insts1.
+
+Definition m1 : module :=
+  {| m_name := m_name m; m_ports := m_ports m; m_sigs := sigs1; m_insts := insts1; m_leaves := leaves1 |}.
+
+Lemma m1_sig_width s : sig_width m1 s = sig_width1 s.
+Proof. reflexivity. Qed.
+
+Lemma leaf_ok_m1 lw : leaf_ok m lw -> leaf_ok m1 lw.
+Proof. intros [s [H1 H2]]. exists s. split; [apply leaves1_old; exact H1|rewrite m1_sig_width; apply sigw1_old; exact H2]. Qed.
+
+Lemma leaf_ok_new id a nm : In (id, a, nm) table -> leaf_ok m1 (id, a_width a).
+Proof. intros H. exists nm. cbn [fst snd]. split; [eapply leaves1_new; exact H|rewrite m1_sig_width; eapply sigw1_new; exact H]. Qed.
+
+Lemma rewrite_inst_inv x x1 : rewrite_inst m keys table x = Ok x1 ->
+  i_name x1 = i_name x /\ i_n x1 = i_n x /\ i_of x1 = i_of x /\
+  exists cs, i_conns x1 = cs ++ added_conns table x /\ Forall2 (fun c c1 => rewrite_conn m keys table x c = Ok c1) (i_conns x) cs.
+Proof.
+  unfold rewrite_inst. intros H. apply bind_ok in H. destruct H as [cs [Hcs H]]. inversion H; subst. cbn. repeat split.
+  exists cs. split; [reflexivity|]. apply traverse_Forall2. exact Hcs.
+Qed.
+
+(* a connection that is neither a reference nor a no-connect mentions signals only *)
+Lemma pr_leaves_sig x c : In x (m_insts m) -> In c (i_conns x) -> as_ref m (snd c) = None -> as_nc m (snd c) = None ->
+  Forall (leaf_ok m) (sx_leaves (snd c)).
+Proof.
+  intros Hx Hc Hr Hn. destruct (pr_inst x Hx) as [ports [_ [_ [Hwc _]]]]. destruct (wf_conn_inv _ _ _ _ _ (Hwc c Hc)) as [w [_ [Hlv Hnc]]].
+  rewrite <- as_nc_is_nc, Hn in Hnc. destruct Hnc as [Hnone _]. pose proof (Hfrag x c Hx Hc) as Hfr.
+  apply Forall_forall. intros lw Hin. destruct (wf_leaf_inv _ _ _ (Hlv lw Hin)) as [lf [Hlf Hk]].
+  destruct lf as [s|i p|site].
+  - exists s. auto.
+  - exfalso. unfold conn_frag in Hfr. destruct (snd c) as [id wl|pp ix|ps] eqn:Ec.
+    + cbn [sx_leaves] in Hin. destruct Hin as [<-|[]]. cbn [fst] in Hlf. unfold as_ref, leaf_at in Hr. rewrite Hlf in Hr. discriminate.
+    + rewrite forallb_forall in Hfr. specialize (Hfr lw Hin). unfold leaf_kind in Hfr. rewrite Hlf in Hfr. discriminate.
+    + rewrite forallb_forall in Hfr. specialize (Hfr lw Hin). unfold leaf_kind in Hfr. rewrite Hlf in Hfr. discriminate.
+  - exfalso. unfold has_nc_inside in Hnone. assert (existsb (fun lw0 : N * Z => match assocN (fst lw0) (m_leaves m) with Some (LNc _) => true | _ => false end) (sx_leaves (snd c)) = true) as Ht; [|congruence].
+    apply existsb_exists. exists lw. split; [exact Hin|]. rewrite Hlf. reflexivity.
+Qed.
+
+Lemma alloc_width_pos a : In a allocs -> 1 <= a_width a.
+Proof.
+  intros Ha. destruct plan_facts as [Hgood _]. rewrite Forall_forall in Hgood. pose proof (Hgood a Ha) as G. unfold alloc_good in G.
+  destruct (a_kind a) as [g o|i p].
+  - destruct G as [_ [_ [namer [_ Hw]]]]. unfold key_width in Hw. destruct (find_inst (m_insts m) (fst namer)) as [xn|] eqn:Ef; cbn [ofopt bind] in Hw; [|discriminate].
+    destruct (find_inst_In _ _ _ Ef) as [Hxn _]. unfold port_width in Hw. destruct (target_ports d (i_of xn)) as [ps|] eqn:Ep; cbn [bind] in Hw; [|discriminate].
+    apply ofopt_ok in Hw. apply (Hpw xn ps (snd namer, a_width a) Hxn Ep (assoc_In _ _ _ Hw)).
+  - destruct G as [x [w [cx [site [Hf [Hw [_ [_ Hwd]]]]]]]]. destruct (find_inst_In _ _ _ Hf) as [Hx _].
+    unfold port_width in Hw. destruct (target_ports d (i_of x)) as [ps|] eqn:Ep; cbn [bind] in Hw; [|discriminate]. apply ofopt_ok in Hw.
+    pose proof (Hpw x ps (p, w) Hx Ep (assoc_In _ _ _ Hw)) as H1. cbn [snd] in H1. rewrite Hwd. unfold single. destruct (i_n x <=? 0) eqn:E; [exact H1|nia].
+Qed.
+
+Lemma pr_conn_ok x c e ports w : In x (m_insts m) -> In c (i_conns x) -> target_ports d (i_of x) = Ok ports ->
+  assoc (fst c) ports = Some w -> conn1_is x c e ->
+  exists cw, 1 <= w /\ Forall (leaf_ok m1) (sx_leaves e) /\ xwidth e = Ok cw /\ (cw = w \/ (0 < i_n x /\ cw = i_n x * w)).
+Proof.
+  intros Hx Hc Hp Hw Hi. pose proof (Hpw x ports (fst c, w) Hx Hp (assoc_In _ _ _ Hw)) as Hw1. cbn [snd] in Hw1.
+  destruct (pr_inst x Hx) as [ports' [Hp' [_ [Hwc _]]]]. rewrite Hp in Hp'. inversion Hp'; subst ports'.
+  destruct (wf_conn_inv _ _ _ _ _ (Hwc c Hc)) as [w' [Hw' [Hlv Hnc]]]. assert (w' = w) as -> by congruence.
+  assert (port_width d x (fst c) = Ok w) as Hpwx by (unfold port_width; rewrite Hp; cbn [bind]; rewrite Hw; reflexivity).
+  destruct Hi as [q g Hr Hq Hqk Hg Hgk Cg Hres Hri|site id a nm w2 Hr Hn He Ht Hk Hw2 Hwd|Hr Hn He].
+  - (* a reference *)
+    assert (next m (i_name x, fst c) = Some q) as Hnx by (unfold next, pconn; cbn [fst snd]; rewrite (pr_find x Hx), (pr_assoc x c Hx Hc); exact Hr).
+    destruct (next_wf d km m keys Hwm Hfrag Hkeys (i_name x, fst c) q x (pr_find x Hx) Hnx) as [w0 [wl [Hw0 [_ [Hkw [Hwl1 [Hcase _]]]]]]].
+    cbn [snd] in Hw0. rewrite Hpwx in Hw0. inversion Hw0; subst w0. exists wl. split; [exact Hw1|].
+    destruct Hri as [Hsrc Hre Hne|id a nm o He Ht Hk Hok Co Hkw2].
+    + (* the group's declared connection: the connection of its root *)
+      destruct (attr_spec d km m keys Hwm Hfrag Hkeys g Hgk) as [Hrk Cr]. set (r := attr m keys g) in *.
+      pose proof Hrk as Hrk2. apply (keys_In d km m keys Hwm Hkeys) in Hrk2. destruct Hrk2 as [xr [wr [Hfr [Hsr Hwr]]]].
+      destruct (find_inst_In _ _ _ Hfr) as [Hxr _]. unfold pconn in Hsrc. rewrite Hfr in Hsrc.
+      pose proof (assoc_In _ _ _ Hsrc) as Hcr. split; [|split].
+      * eapply Forall_impl; [intros lw; apply leaf_ok_m1|]. apply (pr_leaves_sig xr (snd r, e) Hxr Hcr Hre Hne).
+      * destruct (pr_inst xr Hxr) as [pr [Hpr [_ [Hwcr _]]]]. destruct (wf_conn_inv _ _ _ _ _ (Hwcr _ Hcr)) as [w3 [Hw3 [_ Hnc3]]]. cbn [fst snd] in *.
+        rewrite <- as_nc_is_nc, Hne in Hnc3. destruct Hnc3 as [_ [cw [Hcw Hcase3]]]. rewrite Hcw. f_equal.
+        assert (key_width d m r = Ok w3) as Hkr.
+        { unfold key_width. rewrite Hfr. cbn [ofopt bind]. unfold port_width. rewrite Hpr. cbn [bind]. rewrite Hw3. reflexivity. }
+        pose proof (conn_width d km m keys Hwm Hfrag Hkeys q r Hqk Hrk (c_trans _ _ _ _ _ (c_sym _ _ _ _ Cg) Cr)) as Hcw2.
+        rewrite Hkw, Hkr in Hcw2. inversion Hcw2; subst w3. unfold single in Hsr. destruct Hcase3 as [->|[Hpos _]]; [reflexivity|lia].
+      * exact Hcase.
+    + (* the group's implicit signal *)
+      subst e. assert (a_width a = wl) as Haw by congruence. rewrite Haw in *. split; [|split].
+      * constructor; [|constructor]. rewrite <- Haw. eapply leaf_ok_new. exact Ht.
+      * cbn [xwidth]. destruct (wl <? 1) eqn:E; [lia|reflexivity].
+      * exact Hcase.
+  - (* a no-connect: a private signal *)
+    subst e. rewrite Hpwx in Hw2. inversion Hw2; subst w2. destruct (tbl_In _ _ _ Ht) as [Ha _]. pose proof (alloc_width_pos a Ha) as Hap.
+    exists (a_width a). split; [exact Hw1|]. split; [constructor; [eapply leaf_ok_new; exact Ht|constructor]|]. split.
+    + cbn [xwidth]. destruct (a_width a <? 1) eqn:E; [lia|reflexivity].
+    + rewrite Hwd. unfold single. destruct (i_n x <=? 0) eqn:E; [left; reflexivity|right; split; lia].
+  - (* untouched *)
+    subst e. rewrite <- as_nc_is_nc, Hn in Hnc. destruct Hnc as [_ [cw [Hcw Hcase]]]. exists cw. split; [exact Hw1|].
+    split; [eapply Forall_impl; [intros lw; apply leaf_ok_m1|]; apply (pr_leaves_sig x c Hx Hc Hr Hn)|]. auto.
+Qed.
 End PRModule.
